@@ -348,6 +348,97 @@ pub fn run_case(line: &str) -> String {
                 }
             }
         }
+        // UA6 <u|cap>: the address list is [an IPv6 loopback listener, an IPv4 loopback listener] and the sending socket is
+        // an IPv6 one: the first resolved address is the IPv6 one, whatever family comes later.
+        // observation: first:<datagrams at the first listener, hex>|second:<count at the second>|R:<results>  or noipv6
+        "UA6" => {
+            let r1 = match UdpSocket::bind("[::1]:0") {
+                Ok(s) => s,
+                Err(_) => return "noipv6".to_string(),
+            };
+            r1.set_nonblocking(true).unwrap();
+            let r2 = UdpSocket::bind("127.0.0.1:0").expect("bind");
+            r2.set_nonblocking(true).unwrap();
+            let send = match UdpSocket::bind("[::]:0") {
+                Ok(s) => s,
+                Err(_) => return "noipv6".to_string(),
+            };
+            let addrs: Vec<SocketAddr> = vec![r1.local_addr().unwrap(), r2.local_addr().unwrap()];
+            let sink: Box<dyn MetricSink + Send + Sync + RefUnwindSafe> = if t[1] == "u" {
+                match UdpMetricSink::from(&addrs[..], send) {
+                    Ok(s) => Box::new(s),
+                    Err(_) => return "ctor:err".to_string(),
+                }
+            } else {
+                match BufferedUdpMetricSink::with_capacity(&addrs[..], send, t[1].parse().unwrap()) {
+                    Ok(s) => Box::new(s),
+                    Err(_) => return "ctor:err".to_string(),
+                }
+            };
+            let mut res = vec![];
+            for m in ["six:1|c", "z\u{f6}lf:12|ms"] {
+                res.push(match sink.emit(m) {
+                    Ok(k) => format!("k{}", k),
+                    Err(_) => "e".to_string(),
+                });
+            }
+            res.push(match sink.flush() {
+                Ok(()) => "k0".to_string(),
+                Err(_) => "e".to_string(),
+            });
+            drop(sink);
+            let (mut first, mut second) = (vec![], vec![]);
+            Recv::Udp(r1).drain(&mut first, 30);
+            Recv::Udp(r2).drain(&mut second, 10);
+            format!(
+                "first:{}|second:{}|R:{}",
+                first.iter().map(|d| hex(d)).collect::<Vec<_>>().join(";"),
+                second.len(),
+                res.join(",")
+            )
+        }
+        // UO <u|cap>: a small metric, one of 70 000 bytes (more than a UDP datagram can carry: the OS refuses the send),
+        // a small one, flush.  observation: R|S|A  (A = underlying send attempts for the buffered sink)
+        "UO" => {
+            let (recv, send, addr) = udp_pair(false);
+            let attempts = Arc::new(AtomicU64::new(0));
+            let a2 = attempts.clone();
+            cadence::verif::install(Arc::new(move |site| {
+                if site == "sink.write" {
+                    a2.fetch_add(1, Ordering::SeqCst);
+                }
+            }));
+            let sink: Box<dyn MetricSink + Send + Sync + RefUnwindSafe> = if t[1] == "u" {
+                Box::new(UdpMetricSink::from(addr, send).expect("sink"))
+            } else {
+                Box::new(BufferedUdpMetricSink::with_capacity(addr, send, t[1].parse().unwrap()).expect("sink"))
+            };
+            let big = format!("big:{}|c", "9".repeat(70_000));
+            let mut res = vec![];
+            for m in ["a:1|c", big.as_str(), "b:2|c"] {
+                res.push(match sink.emit(m) {
+                    Ok(k) => format!("k{}", k),
+                    Err(_) => "e".to_string(),
+                });
+            }
+            res.push(match sink.flush() {
+                Ok(()) => "k0".to_string(),
+                Err(_) => "e".to_string(),
+            });
+            let st = sink.stats();
+            let att = attempts.load(Ordering::SeqCst);
+            drop(sink);
+            cadence::verif::uninstall();
+            let mut got = vec![];
+            Recv::Udp(recv).drain(&mut got, 20);
+            format!(
+                "R:{}|D:{}|S:{}|A:{}",
+                res.join(","),
+                got.iter().map(|d| hex(d)).collect::<Vec<_>>().join(";"),
+                stats_str(&st),
+                att
+            )
+        }
         "ST" => {
             let threads: usize = t[1].parse().unwrap();
             let n: u64 = t[2].parse().unwrap();
